@@ -28,6 +28,7 @@ static std::set<std::string> Stubbed;      // defined functions whose body is re
 static std::set<std::string> RtGlobals;
 static std::map<std::string,std::string> Renames; // defined function emitted under another name (runtime wraps it)
 static std::map<std::string,std::string> Redirects; // calls to a defined function go to a harness-provided replacement
+static std::map<std::string,std::string> MemcpyHooks; // variable-length memcpy intrinsics inside the named caller become calls of a harness function (index contract instead of copying)
 static std::vector<std::string> KeepIn; // callers (name prefixes) inside which the --emptystr cut does not apply
 static bool UndefNondet = false; // translate IR undef operands as fresh nondeterministic values
 static std::vector<std::string> EmptyStrPrefixes; // defined functions returning std::string by sret that are cut to return ""
@@ -361,6 +362,8 @@ static void emitCall(FnCtx &X, const CallBase &CB, std::ostream &os, const std::
     case Intrinsic::invariant_end: case Intrinsic::donothing: case Intrinsic::prefetch:
       return;
     case Intrinsic::memcpy: case Intrinsic::memcpy_inline:
+      { auto hit = MemcpyHooks.find(CB.getFunction()->getName().str());
+        if (hit != MemcpyHooks.end()) { os << hit->second << "((char*)" << arg(0) << ",(char*)" << arg(1) << ",(uint64_t)" << arg(2) << ");"; return; } }
       if (auto *CN = dyn_cast<ConstantInt>(CB.getArgOperand(2))) if (CN->getZExtValue() <= 8192) {
         uint64_t n = CN->getZExtValue(), o = 0;
         os << "{ char* __d=" << arg(0) << "; char* __s=" << arg(1) << "; ";
@@ -726,6 +729,7 @@ int main(int argc, char **argv) {
     else if (a == "--redirect" && i + 1 < argc) { std::string kv = argv[++i]; auto p = kv.find('='); Redirects[kv.substr(0, p)] = kv.substr(p + 1); }
     else if (a == "--undef-nondet") UndefNondet = true;
     else if (a == "--keep-in" && i + 1 < argc) KeepIn.push_back(argv[++i]);
+    else if (a == "--memcpy-hook" && i + 1 < argc) { std::string kv = argv[++i]; auto p = kv.find('='); MemcpyHooks[kv.substr(0, p)] = kv.substr(p + 1); }
     else if (a == "--funcs" && i + 1 < argc) funcsFile = argv[++i];
     else { errs() << "ir2c: unknown option " << a << "\n"; return 1; }
   }
@@ -746,6 +750,7 @@ int main(int argc, char **argv) {
   };
   if (roots.empty()) for (auto &F : *M) { if (!F.isDeclaration() && F.hasExternalLinkage() && !F.getName().startswith("_Z")) mark(&F); }
   for (auto &r : roots) if (auto *F = M->getFunction(r)) mark(F); else fail("root " + r);
+  for (auto &kv : MemcpyHooks) if (auto *F = M->getFunction(kv.second)) mark(F); else fail("memcpy hook " + kv.second);
   std::vector<const Function *> ctors;
   if (auto *GC = M->getGlobalVariable("llvm.global_ctors")) {
     if (auto *CA = dyn_cast<ConstantArray>(GC->getInitializer()))
